@@ -21,6 +21,7 @@ type structFieldSet struct {
 	key         string
 	keyLen      int64
 	err         error
+	depth       int // number of embedded structs the field is reached through
 }
 
 type structDecoder struct {
